@@ -439,6 +439,10 @@ def scoped():
                 if not (rb or ra or ro):
                     continue
                 yield {'k': 'scoped', 't': t, 'kind': kind, 'ob': ob, 'decl': decl, 'rb': rb, 'ld': ld, 'ra': ra, 'oa': oa, 'ro': ro, 'gap': gap}
+                # the same section nested one and two levels deeper: the hidden outer X is then not in the direct parent
+                if ld and (ob or oa) and not gap:
+                    for depth in (2, 3):
+                        yield {'k': 'scoped', 't': t, 'kind': kind, 'ob': ob, 'decl': decl, 'rb': rb, 'ld': ld, 'ra': ra, 'oa': oa, 'ro': ro, 'gap': gap, 'depth': depth}
 
 
 def render_scoped(case):
@@ -449,6 +453,8 @@ def render_scoped(case):
         l += ['X:\t' + nop]
     if case['gap']:
         l += ['\t' + gap]
+    depth = case.get('depth', 1)
+    l += ['\tsection o%d' % i for i in range(1, depth)]
     l += ['\tsection s']
     if case['decl']:
         l += ['\t%s X' % case['decl']]
@@ -458,7 +464,7 @@ def render_scoped(case):
         l += ['X:\t' + nop]
     if case['ra']:
         l += [ref]
-    l += ['\tendsection']
+    l += ['\tendsection'] * depth
     if case['oa']:
         l += ['X:\t' + nop]
     if case['ro']:
@@ -479,7 +485,7 @@ def ev_scoped(case):
             return core.R(False, ck, 'crash/scoped/%s' % ck, '%s on %s' % (ck, d))
         res.append((o.rc, core.get('a.p') if o.rc == 0 else None, tr[-1][3] if tr else None, len(tr)))
     n = sum(r[3] for r in res)
-    sig = '%s/%s' % (case['decl'] or 'undeclared', case['kind'])
+    sig = '%s/%s' % (case['decl'] or 'undeclared', case['kind']) + ('/nested-%d' % case['depth'] if case.get('depth') else '')
     if res[0][0] == 97:
         return core.R(False, 'no-fixpoint', 'termination/scoped/' + sig, 'no convergence within %d passes on %s' % (MAXP, d), transitions=n)
     if len(set(r[0] for r in res)) > 1:
